@@ -276,9 +276,25 @@ pub fn case_strategy(max_ops: usize) -> BoxedStrategy<Case> {
 /// must still agree. SQL-text statements go through the API here (the refusal is an API error).
 pub fn budget_strategy() -> BoxedStrategy<Case> {
     (case_strategy(30), 1u8..=6, any::<u8>(), any::<u8>())
-        .prop_map(|(mut c, b, sel, at)| {
+        .prop_flat_map(|(c, b, sel, at)| {
+            // single-row updates of the indexed column, addressed by row id (one transaction,
+            // rolled back, at the end of the sequence): rows sharing a key are moved out of it one by
+            // one, some of the moves refused for lack of budget
+            let ci = (sel % c.cols.len() as u8) as usize;
+            let touch = (1i64..7, good_cell(&c.cols[ci]));
+            (Just(c), Just(b), Just(sel), Just(at), prop::collection::vec(touch, 0..5))
+        })
+        .prop_map(|(mut c, b, sel, at, touches)| {
             c.budget = Some(b);
             let col = Col::C(sel % c.cols.len() as u8);
+            let Col::C(ci) = col else { unreachable!() };
+            if let Some((_, v)) = touches.first() {
+                if !v.is_null() {
+                    c.probes.push(Probe { cond: Cond::Leaf(col, Cmp::Le, v.clone()), limit: 0, offset: 0, batch: 1, agg: 0 });
+                    c.probes.push(Probe { cond: Cond::Leaf(col, Cmp::Ge, v.clone()), limit: 0, offset: 0, batch: 1, agg: 0 });
+                }
+            }
+            let tail: Vec<Dml> = touches.into_iter().map(|(id, v)| Dml::Update { cond: Cond::Leaf(Col::Id, Cmp::Eq, V::I(id)), sets: vec![(ci, v)] }).collect();
             let mut ops: Vec<Op> = c
                 .ops
                 .drain(..)
@@ -317,6 +333,10 @@ pub fn budget_strategy() -> BoxedStrategy<Case> {
                 }
             }
             flush(&mut run, &mut grouped);
+            if !tail.is_empty() {
+                grouped.push(Op::Tx { steps: tail, commit: false });
+                grouped.push(Op::Check);
+            }
             let ops = grouped;
             c.ops = ops;
             c
